@@ -231,7 +231,8 @@ def run_tlc(ctx, module, cfg=None, workers=None, env=None, timeout=600, extra=()
             raise Broken("specification error (TLC counterexample with Dev = {}): %s\n%s"
                          % (res.cmd, res.out[-4000:]))
         if not res.ok:
-            raise Broken("TLC failed: %s\n%s" % (res.cmd, res.out[-4000:]))
+            i = res.out.find("Error:")
+            raise Broken("TLC failed: %s\n%s" % (res.cmd, res.out[i:i + 3000] if i >= 0 else res.out[-3000:]))
     return res
 
 
